@@ -119,10 +119,24 @@ fn get_delta_superficial_loss_info(
         // if we forced. Produce a sensible-ish ratio (this is just for display
         // purposes). This could end up being greater than 1 in strange cases.
 
+        // The quotient of the two losses (and its product with the share count)
+        // can be too small or too large to represent. Report that, rather than
+        // assuming the result is a positive number.
+        let sold_shares = tx.sell_specifics().unwrap().shares;
+        let override_numerator = (*specified_loss)
+            .checked_div(*cap_loss)
+            .and_then(|loss_fraction| loss_fraction.checked_mul(*sold_shares))
+            .and_then(|n| PosDecimal::try_from(n).ok())
+            .ok_or_else(|| {
+                format!(
+                    "Sell order on {} of {}: the specified superficial loss ({}) \
+                    cannot be expressed as a fraction of the capital loss ({})",
+                    tx.trade_date, tx.security, specified_loss, cap_loss
+                )
+            })?;
         let override_ratio = crate::util::math::PosDecimalRatio {
-            numerator: (specified_loss / cap_loss)
-                * tx.sell_specifics().unwrap().shares,
-            denominator: tx.sell_specifics().unwrap().shares,
+            numerator: override_numerator,
+            denominator: sold_shares,
         };
 
         // Leave adjust_txs empty, since specified SFL must be accompanied with
